@@ -236,6 +236,11 @@ impl DB {
         self.force_level_compaction(level, &(None..None));
     }
 
+    /// Verification hook: wake every thread waiting for background work (as a finished flush or a recorded background error does).
+    pub fn notify_background_signal_for_verif(&self) {
+        self.background_work_finished_signal.notify_all();
+    }
+
     /// Verification hook: number of level-0 files of the current version.
     pub fn num_level_zero_files_for_verif(&self) -> usize {
         self.guarded_fields.lock().version_set.num_files_at_level(0)
